@@ -184,7 +184,7 @@ def run(ctx, prop):
     reads = {"C02": 4, "C03": 4, "C04": 24, "C20": 6}[prop]
     if prop == "C02":
         drive(ctx, prop, "decision", ["-mode", "decision", "-in", decisions(ctx)])
-        drive(ctx, prop, "writer", ["-mode", "writer", "-seed", s, "-n", 300 if quick else 2000, "-reads", reads, "-sessions", sessions(ctx), "-nsess", 4], replay_workers=8)
+        drive(ctx, prop, "writer", ["-mode", "writer", "-seed", s, "-n", 300 if quick else 1000, "-reads", reads, "-sessions", sessions(ctx), "-nsess", 4], replay_workers=8)
         drive(ctx, prop, "exh", ["-mode", "exh", "-seed", s, "-chunks", 2, "-msgs", 2, "-times", 3, "-stride", 8 if quick else 1, "-reads", reads])
     elif prop in ("C03", "C04"):
         if prop == "C03":
